@@ -799,6 +799,10 @@ func init() {
 				walk(x.v, depth+1)
 			case *Map:
 				if x != nil {
+					if in.trackedMaps == nil {
+						in.trackedMaps = map[*Map]bool{}
+					}
+					in.trackedMaps[x] = true
 					for _, e := range x.order {
 						walk(e.val, depth+1)
 					}
@@ -810,6 +814,11 @@ func init() {
 		}
 		return nil
 	})
+	reg(vrtPath+"StopTracking", func(in *Interp, fr *frame, a []Value) Value {
+		in.tracked, in.trackedMaps = nil, nil
+		return nil
+	})
+	reg(vrtPath+"RaceReport", func(in *Interp, fr *frame, a []Value) Value { return in.raceReport })
 	reg(vrtPath+"RaceFree", func(in *Interp, fr *frame, a []Value) Value { return Bool(in.raceReport == "") })
 
 	// ---- os
